@@ -198,3 +198,205 @@ Theorem model_is_source_C12_Poly : forall A : Arith, @SrcEqPoly.model_is_source_
 Proof. intros A. exact SrcEqPoly.model_is_source_Poly_lemma. Qed.
 Check model_is_source_C12_Poly : forall A : Arith, @SrcEqPoly.model_is_source_Poly A.
 Print Assumptions model_is_source_C12_Poly.
+
+(* ======================================================================================================
+   C12 (polynomial division), rounding half -- package round2.  Append to Props/C12.v.
+   "u = q*v + r to rounding accuracy over floats": the model's [polydiv] (Model/Poly.v, the loop after the repair
+   e504d5d, which SETS the cancelled leading coefficient to zero) in the STANDARD MODEL of floating-point arithmetic
+   (Base/RoundModel.v: the same Gallina [polydiv] at the arithmetic ARm whose operations are the exact ones times
+   (1+d), |d| <= u).  For every coefficient index k, with the EXACT real convolution (q*v)_k = Sum_{i<=k} q_i v_{k-i}:
+   (a) | a_k - (q*v)_k - r_k |  <=  gam (2 M) ( |a_k| + Sum_{i<=k} |q_i| |v_{k-i}| )        (polydiv_rounded_identity)
+   (b) | a_k - (q*v)_k - r_k |  <=  gam (4 M) ( Sum_{i<=k} |q_i| |v_{k-i}| + |r_k| )        (polydiv_rounded_residual)
+   M = min(N, len v),  N = len a + 1 - len v  (N bounds the number of passes of the loop, and one coefficient is touched
+   by at most len v of them; gam n = n u / (1 - n u)).  The residual of each cancelled leading coefficient,
+   r_top - fl(r_top / v_top) v_top, which the repaired loop discards, is part of the bounded error.
+   Hypotheses beside the (1+d) laws: the leading coefficient of v is not zero; the dividend's coefficients belong to
+   the set F of floating-point numbers; results of -, *, / are in F and 0 + x = x + 0 = x - 0 = x for x in F (true of
+   every correctly rounded arithmetic; discharged for 53-bit round-to-nearest-even in Proofs/Round2PolyB.v).
+   (c) polydiv_rounded_identity_float / polydiv_rounded_residual_float: both bounds for the PRIMITIVE-FLOAT instance
+   itself ([polydiv] at AF, IEEE binary64, u = 2^-53), through Flocq: whenever the answer (q, r) is finite and no
+   quotient r_top / v_top and no product c * v_j of the run underflows ([pd_nounder], a condition on computable values
+   of the run; intermediate finiteness is derived from the finite answer).
+   Unproved remainder: (a), (b) assume the standard model; (c) says nothing when the answer is not finite or a
+   quotient / product falls into the subnormal range (the absolute error of gradual underflow is not analysed).
+   ====================================================================================================== *)
+From Coq Require Import List Reals Lra Lia Floats.
+From OV Require Import Base.Panic Base.Arith Base.RoundModel gen.Params Model.Poly Inst.FloatInst Proofs.PolyDiv Proofs.RoundFlx
+  Proofs.ComplexRound Proofs.RoundDotFloat Proofs.Round2Poly Proofs.Round2PolyB.
+Import ListNotations.
+
+Theorem polydiv_rounded_identity : forall (u : R), (0 <= u < 1)%R ->
+  forall (fadd fsub fmul fdiv : R -> R -> R),
+  (forall x y : R, exists d : R, (Rabs d <= u)%R /\ fadd x y = ((x + y) * (1 + d))%R) ->
+  (forall x y : R, exists d : R, (Rabs d <= u)%R /\ fsub x y = ((x - y) * (1 + d))%R) ->
+  (forall x y : R, exists d : R, (Rabs d <= u)%R /\ fmul x y = (x * y * (1 + d))%R) ->
+  (forall x y : R, y <> 0%R -> exists d : R, (Rabs d <= u)%R /\ fdiv x y = (x / y * (1 + d))%R) ->
+  forall (F : R -> Prop),
+  (forall x y : R, F (fsub x y)) -> (forall x y : R, F (fmul x y)) -> (forall x y : R, F (fdiv x y)) ->
+  (forall x : R, F x -> fadd 0%R x = x) -> (forall x : R, F x -> fadd x 0%R = x) ->
+  (forall x : R, F x -> fsub x 0%R = x) ->
+  forall (a v q r : list R),
+  last v 0%R <> 0%R -> Forall F a -> (INR (2 * Nat.min (length a + 1 - length v) (length v)) * u < 1)%R ->
+  polydiv (A := ARm fadd fsub fmul fdiv) a v = Ok (inl (q, r)) ->
+  forall k : nat,
+  (Rabs (nth k a 0 - Rsum (S k) (fun i => nth i q 0 * nth (k - i) v 0) - nth k r 0)
+     <= gam u (2 * Nat.min (length a + 1 - length v) (length v))
+        * (Rabs (nth k a 0) + Rsum (S k) (fun i => Rabs (nth i q 0) * Rabs (nth (k - i) v 0))))%R.
+Proof. intros u Hu fadd fsub fmul fdiv Ha Hs Hm Hd F F1 F2 F3 Z1 Z2 Z3 a v q r Hv Fa Hn E. exact (polydiv_rounded_identity_lemma u Hu fadd fsub fmul fdiv Ha Hs Hm Hd F F1 F2 F3 Z1 Z2 Z3 v Hv a q r Fa Hn E). Qed.
+Check polydiv_rounded_identity : forall (u : R), (0 <= u < 1)%R ->
+  forall (fadd fsub fmul fdiv : R -> R -> R),
+  (forall x y : R, exists d : R, (Rabs d <= u)%R /\ fadd x y = ((x + y) * (1 + d))%R) ->
+  (forall x y : R, exists d : R, (Rabs d <= u)%R /\ fsub x y = ((x - y) * (1 + d))%R) ->
+  (forall x y : R, exists d : R, (Rabs d <= u)%R /\ fmul x y = (x * y * (1 + d))%R) ->
+  (forall x y : R, y <> 0%R -> exists d : R, (Rabs d <= u)%R /\ fdiv x y = (x / y * (1 + d))%R) ->
+  forall (F : R -> Prop),
+  (forall x y : R, F (fsub x y)) -> (forall x y : R, F (fmul x y)) -> (forall x y : R, F (fdiv x y)) ->
+  (forall x : R, F x -> fadd 0%R x = x) -> (forall x : R, F x -> fadd x 0%R = x) ->
+  (forall x : R, F x -> fsub x 0%R = x) ->
+  forall (a v q r : list R),
+  last v 0%R <> 0%R -> Forall F a -> (INR (2 * Nat.min (length a + 1 - length v) (length v)) * u < 1)%R ->
+  polydiv (A := ARm fadd fsub fmul fdiv) a v = Ok (inl (q, r)) ->
+  forall k : nat,
+  (Rabs (nth k a 0 - Rsum (S k) (fun i => nth i q 0 * nth (k - i) v 0) - nth k r 0)
+     <= gam u (2 * Nat.min (length a + 1 - length v) (length v))
+        * (Rabs (nth k a 0) + Rsum (S k) (fun i => Rabs (nth i q 0) * Rabs (nth (k - i) v 0))))%R.
+Print Assumptions polydiv_rounded_identity.
+(* the hypotheses are met by an arithmetic that rounds every operation (53-bit round-to-nearest-even), with F the
+   numbers of that format, and polydiv answers in it with an inexact quotient:
+   (1 + x + x^2) / (1 + 3x) = c2 + c x remainder y,  c = fl(1/3) <> 1/3,  c2 = fl(fl(1 - c)/3),  y = fl(1 - c2) *)
+Example polydiv_rounded_identity_nonvacuous :
+  (0 <= ux < 1)%R /\
+  (forall x y : R, exists d : R, (Rabs d <= ux)%R /\ xadd x y = ((x + y) * (1 + d))%R) /\
+  (forall x y : R, exists d : R, (Rabs d <= ux)%R /\ xsub x y = ((x - y) * (1 + d))%R) /\
+  (forall x y : R, exists d : R, (Rabs d <= ux)%R /\ xmul x y = (x * y * (1 + d))%R) /\
+  (forall x y : R, y <> 0%R -> exists d : R, (Rabs d <= ux)%R /\ xdiv x y = (x / y * (1 + d))%R) /\
+  (forall x y : R, Fx (xsub x y)) /\ (forall x y : R, Fx (xmul x y)) /\ (forall x y : R, Fx (xdiv x y)) /\
+  (forall x : R, Fx x -> xadd 0%R x = x) /\ (forall x : R, Fx x -> xadd x 0%R = x) /\
+  (forall x : R, Fx x -> xsub x 0%R = x) /\
+  last [1%R; 3%R] 0%R <> 0%R /\ Forall Fx [1%R; 1%R; 1%R] /\
+  (INR (2 * Nat.min (length [1%R; 1%R; 1%R] + 1 - length [1%R; 3%R]) (length [1%R; 3%R])) * ux < 1)%R /\
+  polydiv (A := AFlx) [1%R; 1%R; 1%R] [1%R; 3%R] = Ok (inl ([ex_c2; xdiv 1%R 3%R], [ex_y])) /\
+  xdiv 1%R 3%R <> (1 / 3)%R.
+Proof.
+  split; [exact ux_range|]. split; [exact xadd_ok|]. split; [exact xsub_ok|]. split; [exact xmul_ok|].
+  split; [exact xdiv_ok|]. split; [exact Fx_sub|]. split; [exact Fx_mul|]. split; [exact Fx_div|].
+  split; [exact xadd_0_l|]. split; [exact xadd_0_r|]. split; [exact xsub_0_r|].
+  split; [cbn; lra|]. split; [repeat constructor; exact Fx_1|].
+  split; [cbn [length Nat.add Nat.sub Nat.mul Nat.min INR]; pose proof ux_small; lra|].
+  split; [exact ex2_polydiv|exact xdiv_inexact].
+Qed.
+
+(* the same error against the computed quotient and remainder only: gam (4 M) ( Sum |q_i||v_{k-i}| + |r_k| ) *)
+Theorem polydiv_rounded_residual : forall (u : R), (0 <= u < 1)%R ->
+  forall (fadd fsub fmul fdiv : R -> R -> R),
+  (forall x y : R, exists d : R, (Rabs d <= u)%R /\ fadd x y = ((x + y) * (1 + d))%R) ->
+  (forall x y : R, exists d : R, (Rabs d <= u)%R /\ fsub x y = ((x - y) * (1 + d))%R) ->
+  (forall x y : R, exists d : R, (Rabs d <= u)%R /\ fmul x y = (x * y * (1 + d))%R) ->
+  (forall x y : R, y <> 0%R -> exists d : R, (Rabs d <= u)%R /\ fdiv x y = (x / y * (1 + d))%R) ->
+  forall (F : R -> Prop),
+  (forall x y : R, F (fsub x y)) -> (forall x y : R, F (fmul x y)) -> (forall x y : R, F (fdiv x y)) ->
+  (forall x : R, F x -> fadd 0%R x = x) -> (forall x : R, F x -> fadd x 0%R = x) ->
+  (forall x : R, F x -> fsub x 0%R = x) ->
+  forall (a v q r : list R),
+  last v 0%R <> 0%R -> Forall F a -> (INR (4 * Nat.min (length a + 1 - length v) (length v)) * u < 1)%R ->
+  polydiv (A := ARm fadd fsub fmul fdiv) a v = Ok (inl (q, r)) ->
+  forall k : nat,
+  (Rabs (nth k a 0 - Rsum (S k) (fun i => nth i q 0 * nth (k - i) v 0) - nth k r 0)
+     <= gam u (4 * Nat.min (length a + 1 - length v) (length v))
+        * (Rsum (S k) (fun i => Rabs (nth i q 0) * Rabs (nth (k - i) v 0)) + Rabs (nth k r 0)))%R.
+Proof. intros u Hu fadd fsub fmul fdiv Ha Hs Hm Hd F F1 F2 F3 Z1 Z2 Z3 a v q r Hv Fa Hn E. exact (polydiv_rounded_residual_lemma u Hu fadd fsub fmul fdiv Ha Hs Hm Hd F F1 F2 F3 Z1 Z2 Z3 v Hv a q r Fa Hn E). Qed.
+Check polydiv_rounded_residual : forall (u : R), (0 <= u < 1)%R ->
+  forall (fadd fsub fmul fdiv : R -> R -> R),
+  (forall x y : R, exists d : R, (Rabs d <= u)%R /\ fadd x y = ((x + y) * (1 + d))%R) ->
+  (forall x y : R, exists d : R, (Rabs d <= u)%R /\ fsub x y = ((x - y) * (1 + d))%R) ->
+  (forall x y : R, exists d : R, (Rabs d <= u)%R /\ fmul x y = (x * y * (1 + d))%R) ->
+  (forall x y : R, y <> 0%R -> exists d : R, (Rabs d <= u)%R /\ fdiv x y = (x / y * (1 + d))%R) ->
+  forall (F : R -> Prop),
+  (forall x y : R, F (fsub x y)) -> (forall x y : R, F (fmul x y)) -> (forall x y : R, F (fdiv x y)) ->
+  (forall x : R, F x -> fadd 0%R x = x) -> (forall x : R, F x -> fadd x 0%R = x) ->
+  (forall x : R, F x -> fsub x 0%R = x) ->
+  forall (a v q r : list R),
+  last v 0%R <> 0%R -> Forall F a -> (INR (4 * Nat.min (length a + 1 - length v) (length v)) * u < 1)%R ->
+  polydiv (A := ARm fadd fsub fmul fdiv) a v = Ok (inl (q, r)) ->
+  forall k : nat,
+  (Rabs (nth k a 0 - Rsum (S k) (fun i => nth i q 0 * nth (k - i) v 0) - nth k r 0)
+     <= gam u (4 * Nat.min (length a + 1 - length v) (length v))
+        * (Rsum (S k) (fun i => Rabs (nth i q 0) * Rabs (nth (k - i) v 0)) + Rabs (nth k r 0)))%R.
+Print Assumptions polydiv_rounded_residual.
+Example polydiv_rounded_residual_nonvacuous :   (* same instance and division as above *)
+  (0 <= ux < 1)%R /\ last [1%R; 3%R] 0%R <> 0%R /\ Forall Fx [1%R; 1%R; 1%R] /\
+  (INR (4 * Nat.min (length [1%R; 1%R; 1%R] + 1 - length [1%R; 3%R]) (length [1%R; 3%R])) * ux < 1)%R /\
+  polydiv (A := AFlx) [1%R; 1%R; 1%R] [1%R; 3%R] = Ok (inl ([ex_c2; xdiv 1%R 3%R], [ex_y])).
+Proof.
+  split; [exact ux_range|]. split; [cbn; lra|]. split; [repeat constructor; exact Fx_1|].
+  split; [cbn [length Nat.add Nat.sub Nat.mul Nat.min INR]; pose proof ux_small; lra|exact ex2_polydiv].
+Qed.
+
+(* the same for the primitive floats themselves (IEEE binary64, u64 = 2^-53, g64 n = gam u64 n), through Flocq *)
+Theorem polydiv_rounded_identity_float : forall (a v q r : list PrimFloat.float),
+  polydiv (A := AF) a v = Ok (inl (q, r)) -> Forall ffinite q -> Forall ffinite r -> FR (last v 0%float) <> 0%R ->
+  pd_nounder (S POLYDIV_MAX) [] a v ->
+  (INR (2 * Nat.min (length a + 1 - length v) (length v)) * u64 < 1)%R ->
+  forall k : nat,
+  (Rabs (FR (nth k a 0%float) - Rsum (S k) (fun i => FR (nth i q 0%float) * FR (nth (k - i) v 0%float))
+         - FR (nth k r 0%float))
+     <= g64 (2 * Nat.min (length a + 1 - length v) (length v))
+        * (Rabs (FR (nth k a 0%float))
+           + Rsum (S k) (fun i => Rabs (FR (nth i q 0%float)) * Rabs (FR (nth (k - i) v 0%float)))))%R.
+Proof. intros a v q r E Hq Hr Hv P Hn. exact (polydiv_rounded_identity_float_lemma a v q r E Hq Hr Hv P Hn). Qed.
+Check polydiv_rounded_identity_float : forall (a v q r : list PrimFloat.float),
+  polydiv (A := AF) a v = Ok (inl (q, r)) -> Forall ffinite q -> Forall ffinite r -> FR (last v 0%float) <> 0%R ->
+  pd_nounder (S POLYDIV_MAX) [] a v ->
+  (INR (2 * Nat.min (length a + 1 - length v) (length v)) * u64 < 1)%R ->
+  forall k : nat,
+  (Rabs (FR (nth k a 0%float) - Rsum (S k) (fun i => FR (nth i q 0%float) * FR (nth (k - i) v 0%float))
+         - FR (nth k r 0%float))
+     <= g64 (2 * Nat.min (length a + 1 - length v) (length v))
+        * (Rabs (FR (nth k a 0%float))
+           + Rsum (S k) (fun i => Rabs (FR (nth i q 0%float)) * Rabs (FR (nth (k - i) v 0%float)))))%R.
+Print Assumptions polydiv_rounded_identity_float.
+Print Assumptions polydiv_zero_divisor_lemma.   (* closed; ends the listing of float primitives above for the driver's parser *)
+(* (1 + x + x^2) / (1 + 3x) at binary64: two passes, quotient coefficients fl(fl(1 - fl(1/3)) / 3) and fl(1/3) < 1/3 *)
+Example polydiv_rounded_identity_float_nonvacuous :
+  polydiv (A := AF) exf_a exf_v = Ok (inl (exf_q, exf_r)) /\ Forall ffinite exf_q /\ Forall ffinite exf_r /\
+  FR (last exf_v 0%float) <> 0%R /\ pd_nounder (S POLYDIV_MAX) [] exf_a exf_v /\
+  (INR (2 * Nat.min (length exf_a + 1 - length exf_v) (length exf_v)) * u64 < 1)%R /\
+  (FR (nth 1 exf_q 0%float) < 1 / 3)%R.
+Proof.
+  split; [exact exf_polydiv|]. split; [exact (proj1 exf_fin)|]. split; [exact (proj2 exf_fin)|].
+  split; [exact exf_lead|]. split; [exact exf_nounder|]. split; [exact exf_size|exact exf_q_inexact].
+Qed.
+
+(* ... and against the computed quotient and remainder only, at binary64 *)
+Theorem polydiv_rounded_residual_float : forall (a v q r : list PrimFloat.float),
+  polydiv (A := AF) a v = Ok (inl (q, r)) -> Forall ffinite q -> Forall ffinite r -> FR (last v 0%float) <> 0%R ->
+  pd_nounder (S POLYDIV_MAX) [] a v ->
+  (INR (4 * Nat.min (length a + 1 - length v) (length v)) * u64 < 1)%R ->
+  forall k : nat,
+  (Rabs (FR (nth k a 0%float) - Rsum (S k) (fun i => FR (nth i q 0%float) * FR (nth (k - i) v 0%float))
+         - FR (nth k r 0%float))
+     <= g64 (4 * Nat.min (length a + 1 - length v) (length v))
+        * (Rsum (S k) (fun i => Rabs (FR (nth i q 0%float)) * Rabs (FR (nth (k - i) v 0%float)))
+           + Rabs (FR (nth k r 0%float))))%R.
+Proof. intros a v q r E Hq Hr Hv P Hn. exact (polydiv_rounded_residual_float_lemma a v q r E Hq Hr Hv P Hn). Qed.
+Check polydiv_rounded_residual_float : forall (a v q r : list PrimFloat.float),
+  polydiv (A := AF) a v = Ok (inl (q, r)) -> Forall ffinite q -> Forall ffinite r -> FR (last v 0%float) <> 0%R ->
+  pd_nounder (S POLYDIV_MAX) [] a v ->
+  (INR (4 * Nat.min (length a + 1 - length v) (length v)) * u64 < 1)%R ->
+  forall k : nat,
+  (Rabs (FR (nth k a 0%float) - Rsum (S k) (fun i => FR (nth i q 0%float) * FR (nth (k - i) v 0%float))
+         - FR (nth k r 0%float))
+     <= g64 (4 * Nat.min (length a + 1 - length v) (length v))
+        * (Rsum (S k) (fun i => Rabs (FR (nth i q 0%float)) * Rabs (FR (nth (k - i) v 0%float)))
+           + Rabs (FR (nth k r 0%float))))%R.
+Print Assumptions polydiv_rounded_residual_float.
+Print Assumptions polydiv_zero_divisor_lemma.   (* closed; ends the listing of float primitives above for the driver's parser *)
+Example polydiv_rounded_residual_float_nonvacuous :   (* same division as above *)
+  polydiv (A := AF) exf_a exf_v = Ok (inl (exf_q, exf_r)) /\ Forall ffinite exf_q /\ Forall ffinite exf_r /\
+  FR (last exf_v 0%float) <> 0%R /\ pd_nounder (S POLYDIV_MAX) [] exf_a exf_v /\
+  (INR (4 * Nat.min (length exf_a + 1 - length exf_v) (length exf_v)) * u64 < 1)%R.
+Proof.
+  split; [exact exf_polydiv|]. split; [exact (proj1 exf_fin)|]. split; [exact (proj2 exf_fin)|].
+  split; [exact exf_lead|]. split; [exact exf_nounder|].
+  cbn [length exf_a exf_v Nat.add Nat.sub Nat.mul Nat.min INR]. pose proof u64_small. lra.
+Qed.
